@@ -54,6 +54,8 @@ pub struct Recorder {
     pub stats: BTreeMap<String, u64>,
     /// the raw case line being replayed (kept so that a disagreement can be replayed verbatim)
     pub cur_case: Option<String>,
+    /// integer form -> canonical text, per subtag kind (C17: distinct subtags, distinct integers)
+    pub raw_seen: std::collections::HashMap<(u8, u64), String>,
 }
 
 impl Recorder {
@@ -66,6 +68,7 @@ impl Recorder {
             cap_per_sig: 40,
             stats: BTreeMap::new(),
             cur_case: None,
+            raw_seen: std::collections::HashMap::new(),
         }
     }
 
@@ -93,6 +96,21 @@ impl Recorder {
             let case = self.cur_case.as_ref().filter(|c| c.len() < 60_000).cloned();
             let rec = json!({"props": props, "what": what, "detail": detail, "case": case});
             let _ = writeln!(f, "{}", rec);
+        }
+    }
+
+    /// records (kind, integer) -> text; a second, different text for the same integer is a collision
+    pub fn raw_form(&mut self, kind: u8, raw: u64, text: &str) {
+        let clash = match self.raw_seen.get(&(kind, raw)) {
+            Some(t) if t != text => Some(t.clone()),
+            Some(_) => None,
+            None => {
+                self.raw_seen.insert((kind, raw), text.to_string());
+                None
+            }
+        };
+        if let Some(t) = clash {
+            self.dis(&["C17"], "raw-form-collision", json!({"kind": kind, "raw": raw, "texts": [t, text]}));
         }
     }
 
